@@ -730,6 +730,26 @@ func ruleRelAppendOnly(r *Run) {
 			if !ok {
 				return
 			}
+			// a field of an existing entry rewritten in place: rels[i].Target = …
+			if fa, ok := st.Addr.(*ssa.FieldAddr); ok {
+				if ia, ok := fa.X.(*ssa.IndexAddr); ok {
+					if ffv, _ := fieldOfAddr(fa); ffv != nil && fieldIs(p, ffv, pkgDoc, "Relationship", ffv.Name()) {
+						lst := ia.X
+						if ld, ok := lst.(*ssa.UnOp); ok {
+							lst = ld.X
+						}
+						if ch, root := addrChain(lst); len(ch) > 0 && fieldIs(p, ch[len(ch)-1], pkgDoc, "Relationships", "Relationships") {
+							_, fresh := stripLoads(root).(*ssa.Alloc)
+							if !(fresh && len(ch) == 1) && !reader.IsReader[top] && !clones[top] && !strings.HasPrefix(top.Name(), "parse") {
+								n++
+								idx++
+								r.Check("rel-append-only", fmt.Sprintf("%s#%d:rewrite-%s", shortName(top), idx, ffv.Name()), st.Pos(), false,
+									fmt.Sprintf("%s overwrites the %s of a relationship that is already in the list: relationships of an opened package keep their id, type, target and mode — the part the old target named is orphaned, and whatever refers to the relationship now resolves elsewhere", shortName(top), ffv.Name()))
+							}
+						}
+					}
+				}
+			}
 			// element store list[i] = … or field store list = …
 			target := st.Addr
 			elemStore := false
